@@ -124,6 +124,9 @@ def run_cases(ctx, lay, cases, use_oracle=True):
         rep.case((lay.cls, api, sorted((k, repr(v)) for k, v in a.items())), kind=kind)
         impl = rc.impl_roundtrip(lay, api, a)
         replay = {'class': lay.cls, 'api': api, 'assignment': {k: cc.value_text(v) for k, v in a.items()}}
+        if impl.get('aliasing'):
+            rep.violation({'entry': api, 'class': lay.cls, 'component': 'result-independence', 'kind': 'aliased-result'},
+                          f'{lay.cls} via {api}: {impl["aliasing"]}', dict(replay, aliasing=True))
         if replies is None:
             continue
         mrep, srep = replies[2 * i], replies[2 * i + 1]
@@ -294,6 +297,8 @@ def replay(ctx, data):
     m = ctx.model or vlib.FastModel()
     lay = rc.layout(m, data['class'])
     a = {k: rc.py_of_text(v) for k, v in data['assignment'].items()}
+    if data.get('aliasing'):
+        return rc.impl_roundtrip(lay, data['api'], a).get('aliasing')
     srep = m.ask(f'rtspec {lay.cls} {rc.assignment_text(a)}')
     if srep.startswith('ERROR') or srep[0] != '1':
         return None
